@@ -259,6 +259,17 @@ def chk_funnel(rng):
             if not lo <= len(a) <= hi:
                 continue
             x = B.clone(a)
+            # comparison is of bit strings, not of numbers: leading zero bits count, and != is the negation of ==
+            for b in strs + ['011', '00011', '10']:
+                n += 1
+                try:
+                    eq, ne = (x == univ.BitString(b)), (x != univ.BitString(b))
+                except Exception as e:
+                    fails.append(rec('funnel', 'BitString %r compared with %r raised %s' % (a, b, type(e).__name__)))
+                    continue
+                if eq != (a == b) or ne != (a != b):
+                    fails.append(rec('funnel', 'BitString %r == %r is %r, != is %r (the strings are %s)' % (
+                        a, b, eq, ne, 'equal' if a == b else 'different')))
             for name in bops:
                 for b in strs[:6]:
                     for k in (0, 1, 2, 3):
